@@ -201,10 +201,11 @@ class SubCheck(object):
     Violations are re-reported under the given rule id; findings that are listed as known for the source property are
     left to that property's own check."""
 
-    def __init__(self, parent, rid, source_pid):
+    def __init__(self, parent, rid, source_pid, only=None):
         self.parent = parent
         self.rid = rid
         self.source = source_pid
+        self.only = set(only) if only else None      # restrict to these rules of the source property
         self.tier = parent.tier
         self.noks = 0
         self.nfail = 0
@@ -226,10 +227,13 @@ class SubCheck(object):
         self.rules[rid] = text
 
     def ok(self, rule, site, detail='', nontrivial=True, sample=False):
-        self.noks += 1
+        if self.only is None or rule in self.only:
+            self.noks += 1
 
     def fail(self, rule, key, where, msg, witness=None, site=None):
         if (rule, key) in self._known:
+            return
+        if self.only is not None and rule not in self.only:
             return
         self.nfail += 1
         self.parent.fail(self.rid, '%s:%s:%s' % (self.source, rule, key), where, msg + ' [%s %s]' % (self.source, rule), witness=witness)
